@@ -9,7 +9,7 @@ pub const PARSERS: [&str; 7] = ["cnf", "wcnf", "gcnf", "log", "aag", "aig", "bto
 pub fn lit_types(parser: &str) -> &'static [&'static str] {
     match parser {
         "cnf" | "wcnf" | "gcnf" | "log" => &["i8", "i16", "i32", "i64", "isize"],
-        "aag" | "aig" | "aag_parse" | "aig_parse" => &["u8", "u16", "u32", "u64", "usize"],
+        "aag" | "aig" | "aag_parse" | "aig_parse" | "aag_skip" | "aig_skip" => &["u8", "u16", "u32", "u64", "usize"],
         _ => &["-"],
     }
 }
